@@ -772,6 +772,46 @@ thread_local! {
   static LAST_PANIC_LOC: std::cell::RefCell<String> = std::cell::RefCell::new(String::new());
 }
 
+// case: {src, media}: byte ranges of swc's tokens and comments (input of the no-irregular-whitespace model)
+fn tokens_case(case: &Value) -> Value {
+  let src = case["src"].as_str().unwrap_or("").trim_start_matches('\u{FEFF}').to_string();
+  let mt = media(case["media"].as_str().unwrap_or("ts"));
+  let spec = ModuleSpecifier::parse(&format!("file:///v/case.{}", ext_of(mt)))
+    .unwrap();
+  match deno_ast::parse_program(deno_ast::ParseParams {
+    specifier: spec,
+    media_type: mt,
+    text: src.into(),
+    capture_tokens: true,
+    maybe_syntax: Some(deno_ast::get_syntax(mt)),
+    scope_analysis: false,
+  }) {
+    Ok(ps) => {
+      let base = ps.text_info_lazy().range().start;
+      let toks: Vec<Value> = ps
+        .tokens()
+        .iter()
+        .map(|t| {
+          let r = t.range();
+          json!([r.start.as_byte_index(base), r.end.as_byte_index(base)])
+        })
+        .collect();
+      let mut cms: Vec<(usize, usize)> = ps
+        .comments()
+        .get_vec()
+        .iter()
+        .map(|c| {
+          let r = c.range();
+          (r.start.as_byte_index(base), r.end.as_byte_index(base))
+        })
+        .collect();
+      cms.sort();
+      json!({"tokens": toks, "comments": cms.iter().map(|(a, b)| json!([a, b])).collect::<Vec<_>>()})
+    }
+    Err(e) => json!({ "parse_error": format!("{}", e.message()) }),
+  }
+}
+
 fn main() {
   std::env::set_var("RUST_BACKTRACE", "0");
   let args: Vec<String> = std::env::args().collect();
@@ -796,6 +836,7 @@ fn main() {
     "dirparse" => dirparse_case,
     "cf" => cf_case,
     "parse" => parse_case,
+    "tokens" => tokens_case,
     "regex" => regex_case,
     "idents" => idents_case,
     _ => {
